@@ -439,10 +439,13 @@ pub fn c02(ctx: &Ctx) -> PropResult {
             }
         }
     }
+    for src in crate::props6::repeat_count_family() {
+        cases.push(run_case(src, "repeat-counts"));
+    }
     let stats = run_cases(&ctx.driver, cases, &newline_twin_oracle, &no_known, ctx.threads);
     PropResult {
         stats,
-        rule: "random control-flow skeletons (depth <= 3, <= 3 statements per block; IF/ELSE over 10 condition values incl. 0, -0, NULL, \"\", []; REPEAT TIMES with counts 0, 1, 2, 3, 2.7, -1, 0.99, variable; REPEAT UNTIL; FOR EACH over lists and strings incl. non-ASCII and an outer variable of the same name; BREAK/CONTINUE wherever a loop encloses) with a DISPLAY probe per statement; BREAK/CONTINUE at every position of a three-statement body of every loop form, bare and guarded, alone and nested; random general programs; non-trivial = ended normally or with a runtime error; every falsy and truthy value class as a condition REPEAT UNTIL re-tests, and under IF / unbraced IF / ELSE IF / NOT / AND / OR, directly, through a procedure and through an assignment; a callee's loop variable named like a variable of the caller; brace-less branches followed by ELSE on the same line and brace-less bodies at the very end of the input".into(),
+        rule: "random control-flow skeletons (depth <= 3, <= 3 statements per block; IF/ELSE over 10 condition values incl. 0, -0, NULL, \"\", []; REPEAT TIMES with counts 0, 1, 2, 3, 2.7, -1, 0.99, variable; REPEAT UNTIL; FOR EACH over lists and strings incl. non-ASCII and an outer variable of the same name; BREAK/CONTINUE wherever a loop encloses) with a DISPLAY probe per statement; BREAK/CONTINUE at every position of a three-statement body of every loop form, bare and guarded, alone and nested; random general programs; non-trivial = ended normally or with a runtime error; every falsy and truthy value class as a condition REPEAT UNTIL re-tests, and under IF / unbraced IF / ELSE IF / NOT / AND / OR, directly, through a procedure and through an assignment; a callee's loop variable named like a variable of the caller; brace-less branches followed by ELSE on the same line and brace-less bodies at the very end of the input; every kind of value as the count of REPEAT n TIMES".into(),
         exhaustive: false,
         notes: vec![],
     }
@@ -986,6 +989,32 @@ pub fn c05(ctx: &Ctx) -> PropResult {
             cases.push(Case::new(Kind::Parse, format!("DISPLAY({dropped})\n")).tag("parentheses-removed"));
         }
     }
+    // appended after everything else (earlier cases keep their numbering): an assignment as an index key, as a call
+    // argument, as a list element, on both sides of every operator
+    {
+        let l = |i: usize| Box::new(PExpr::Leaf(format!("P({}, v{})", i + 1, i)));
+        let asg = |t: &str, v: Box<PExpr>| Box::new(PExpr::Assign(t.into(), v));
+        let mut extra: Vec<PExpr> = vec![
+            PExpr::Index(Box::new(PExpr::Leaf("lst".into())), asg("w0", l(0))),
+            PExpr::Index(Box::new(PExpr::Index(Box::new(PExpr::Leaf("nst".into())), asg("w0", l(0)))), asg("w1", l(1))),
+            PExpr::Assign("lst[w0 <- P(1, v0)]".into(), l(1)),
+            PExpr::Call("P".into(), vec![*asg("w0", l(0)), *asg("w1", l(1))]),
+            PExpr::Un("-", asg("w0", l(0))),
+            PExpr::Un("NOT", asg("w0", l(0))),
+        ];
+        for op in P_BINOPS {
+            extra.push(PExpr::Bin(op, l(0), asg("w0", l(1))));
+            extra.push(PExpr::Bin(op, asg("w0", l(0)), asg("w1", l(1))));
+            extra.push(PExpr::Bin(op, l(0), Box::new(PExpr::Un("-", l(1)))));
+            extra.push(PExpr::Bin(op, Box::new(PExpr::Un("-", l(0))), Box::new(PExpr::Un("-", l(1)))));
+        }
+        for (ti, t) in extra.iter().enumerate() {
+            for k in 0..4 {
+                let val = &VALUATIONS[(ti + 5 * k) % VALUATIONS.len()];
+                cases.push(run_case(pexpr_program(&t.render_min(), val), "minimal").aux(pexpr_program(&t.render_full(), val)));
+            }
+        }
+    }
     // the oracle runs the fully parenthesised twin on the implementation and compares behaviours
     let oracle = |case: &Case, out: &Outcome| -> Result<bool, String> {
         let Some(r) = out.impl_run.as_ref() else { return Ok(false) };
@@ -1007,7 +1036,7 @@ pub fn c05(ctx: &Ctx) -> PropResult {
     let stats = run_cases(&ctx.driver, cases, &oracle, &no_known, ctx.threads);
     PropResult {
         stats,
-        rule: format!("{} expression trees: every ordered pair of the 13 binary operators in both shapes, every binary operator with unary -, NOT, assignment and indexing at each operand (thorough: every triple in all five shapes), random trees with 2-8 operators incl. calls, assignment and indexing; each rendered with only the required parentheses and fully parenthesised, run under {} valuations (distinct primes, zeros for errors, mixed kinds) with a probe procedure at every leaf so that order, once-ness and short-circuiting show in the output; implementation-only oracle: both renderings behave identically (output, end class, error kind); the minimal rendering is also compared with the model; chains of postfix operators (indexing of an indexing or of a call result, two and three deep, under every binary and unary operator, as assignment target) with valuations failing at the first, second or third step; every triple of operators in the balanced shape (a . b) . (c . d); chains of 8 .. 70 operands plain / fully parenthesised / with doubled parentheses; the minimal text without any blank the lexical grammar does not need; number literals as operands after every kind of left operand; literal-only operands incl. zero divisors; required-parentheses-removed texts as a strided sample over all trees plus every tree with an assignment", trees.len(), per_tree),
+        rule: format!("{} expression trees: every ordered pair of the 13 binary operators in both shapes, every binary operator with unary -, NOT, assignment and indexing at each operand (thorough: every triple in all five shapes), random trees with 2-8 operators incl. calls, assignment and indexing; each rendered with only the required parentheses and fully parenthesised, run under {} valuations (distinct primes, zeros for errors, mixed kinds) with a probe procedure at every leaf so that order, once-ness and short-circuiting show in the output; implementation-only oracle: both renderings behave identically (output, end class, error kind); the minimal rendering is also compared with the model; chains of postfix operators (indexing of an indexing or of a call result, two and three deep, under every binary and unary operator, as assignment target) with valuations failing at the first, second or third step; every triple of operators in the balanced shape (a . b) . (c . d); chains of 8 .. 70 operands plain / fully parenthesised / with doubled parentheses; the minimal text without any blank the lexical grammar does not need; number literals as operands after every kind of left operand; literal-only operands incl. zero divisors; required-parentheses-removed texts as a strided sample over all trees plus every tree with an assignment; assignments as index keys, call arguments and operands on both sides of every operator", trees.len(), per_tree),
         exhaustive: false,
         notes: vec![],
     }
